@@ -1,4 +1,27 @@
 """Which properties are claimed, at which level. MANIFEST.json is generated from this."""
 NOT_YET = "check not built yet in this round (machinery under construction; see DESIGN.md section 8) - not a statement that the technique cannot apply"
 NOTES = "Contract-based deductive verification with a self-built VC generator (pvc); see DESIGN.md."
-CHECKS = {}
+TB = "pvc (own VC generator), z3 5.1 with cvc5 1.0 / z3 4.8 / ring-normaliser fallbacks, python ast, clang 14 AST dump; dependency contracts listed in the evidence"
+CHECKS = {
+    "C10": {
+        "level": "proof",
+        "level_text": "VCs generated from the current source of ManagedFilter._process_model (python) are discharged for all times and all max_dt_sec > 0 and any iteration count (inductive invariant on a ghost monitor of the wrapped filter's process_model calls); a refuted VC is replayed natively with a recording filter.",
+        "level_note": "floats as reals (A-REAL); wrapped filter opaque and pure; floor axiomatised; " + TB,
+        "technique": "contract-based deductive verification: own VC generator over the real AST + z3",
+        "design_ref": "DESIGN.md section 4 / C10",
+    },
+    "C11": {
+        "level": "proof",
+        "level_text": "ManagedFilter.tick is verified against a recursive fold spec for reading lists of any length and any timestamps (loop invariant held = fold(readings[:k])), using _process_model's contract at call sites; includes the control-required refusal and the nothing-held frame for reading-less ticks.",
+        "level_note": "wrapped filter's process_model/sensor_model/make_reading opaque pure functions; floats as reals; " + TB,
+        "technique": "contract-based deductive verification: own VC generator over the real AST + z3",
+        "design_ref": "DESIGN.md section 4 / C11",
+    },
+    "C19": {
+        "level": "proof",
+        "level_text": "Every state_model expression of the real strapdown_imu module (obtained by importing it = symbolic execution of straight-line sympy code) is proved equal to a hand-written rigid-body spec for all real inputs with |q|^2 != 0 (z3; ring normal form for the degree-6 position identities); declared symbol sets checked exactly.",
+        "level_note": "real arithmetic; sympy -> z3 translation trusted; compiled-model link is C01's contract plus a bounded native sample (not counted as proved); " + TB,
+        "technique": "contract-based deductive verification: postconditions on the module's symbolic outputs discharged by z3 / ring normalisation",
+        "design_ref": "DESIGN.md section 4 / C19",
+    },
+}
